@@ -57,6 +57,9 @@ pub struct Block {
     pub size: usize,
     pub align: usize,
     pub rz: usize,
+    /// offset of `user` from `base` (>= rz): blocks are deliberately aligned to exactly their requested
+    /// alignment and no better, so that code relying on a stronger alignment than it asked for is exposed
+    pub pre: usize,
     pub live: bool,
 }
 
@@ -161,7 +164,7 @@ pub fn reset() {
                 if b.rz == 0 {
                     std::alloc::dealloc(b.base, Layout::from_size_align_unchecked(b.size, b.align));
                 } else {
-                    std::alloc::dealloc(b.base, Layout::from_size_align_unchecked(b.size + 2 * b.rz, b.rz.max(b.align)));
+                    std::alloc::dealloc(b.base, Layout::from_size_align_unchecked(b.pre + b.size + b.rz, 2 * b.rz));
                 }
             }
         }
@@ -418,25 +421,28 @@ unsafe impl Allocator for CheckAlloc {
             }
             with(|e| {
                 e.live_bytes += size;
-                e.blocks.push(Block { base, user: base, size, align, rz: 0, live: true });
+                e.blocks.push(Block { base, user: base, size, align, rz: 0, pre: 0, live: true });
             });
             return Ok(NonNull::slice_from_raw_parts(NonNull::new(base).unwrap(), size));
         }
         let rz = align.max(32);
-        let total = size + 2 * rz;
-        let base = unsafe { std::alloc::alloc(Layout::from_size_align(total, rz).unwrap()) };
+        // user address = align (mod 2 * align): aligned as requested, never better
+        let pre = if rz % (2 * align) == 0 { rz + align } else { rz };
+        let total = pre + size + rz;
+        let base = unsafe { std::alloc::alloc(Layout::from_size_align(total, 2 * rz).unwrap()) };
         if base.is_null() {
             return Err(AllocError);
         }
         unsafe {
-            std::ptr::write_bytes(base, CANARY, rz);
-            std::ptr::write_bytes(base.add(rz), POISON_NEW, size);
-            std::ptr::write_bytes(base.add(rz + size), CANARY, rz);
+            std::ptr::write_bytes(base, CANARY, pre);
+            std::ptr::write_bytes(base.add(pre), POISON_NEW, size);
+            std::ptr::write_bytes(base.add(pre + size), CANARY, rz);
         }
-        let user = unsafe { base.add(rz) };
+        let user = unsafe { base.add(pre) };
+        debug_assert!(user as usize % align == 0 && user as usize % (2 * align) != 0);
         with(|e| {
             e.live_bytes += size;
-            e.blocks.push(Block { base, user, size, align, rz, live: true });
+            e.blocks.push(Block { base, user, size, align, rz, pre, live: true });
         });
         Ok(NonNull::slice_from_raw_parts(NonNull::new(user).unwrap(), size))
     }
@@ -491,12 +497,12 @@ fn check_canary(b: &Block) -> Option<String> {
         return None;
     }
     unsafe {
-        let before = std::slice::from_raw_parts(b.base, b.rz);
-        let after = std::slice::from_raw_parts(b.base.add(b.rz + b.size), b.rz);
+        let before = std::slice::from_raw_parts(b.base, b.pre);
+        let after = std::slice::from_raw_parts(b.base.add(b.pre + b.size), b.rz);
         if let Some(i) = before.iter().position(|&x| x != CANARY) {
             return Some(format!(
                 "allocator: write {} bytes BEFORE block of size {} (red zone damaged)",
-                b.rz - i,
+                b.pre - i,
                 b.size
             ));
         }
